@@ -458,6 +458,14 @@ def run_kern_lab(outdir, seed, tier, log):
                        dict(base, proto="tcp", method="prefer_sack", port=8080, port_state=ps_open),
                        dict(base, proto="tcp", method="prefer_sack", port=8081, port_state=1),
                        dict(base, proto="tcp", method="sack", port=8081, port_state=1)]
+                if c.v6 and vname in ("plain", "silent"):
+                    # the same path over IPv6 (ICMPv6 errors from the kernel routers, echo reply / port unreachable from the destination)
+                    b6 = dict(base, target=c.addr6(n + 1), v6=1)
+                    scs += [dict(b6, proto="icmp", method="", port=0, port_state=0),
+                            dict(b6, proto="udp", method="", port=33434, port_state=0)]
+                    if vname == "plain":
+                        scs += [dict(b6, proto="udp", method="", port=33434, port_state=0, parallel=2),
+                                dict(b6, proto="icmp", method="", port=0, port_state=0, first=min(2, n + 1))]
                 if vname == "plain":
                     scs += [dict(base, proto="udp", method="", port=33434, port_state=0, first=min(2, n + 1)),
                             dict(base, proto="icmp", method="", port=0, port_state=0, last=max(1, n)),        # stops before the destination
